@@ -23,6 +23,8 @@ pub struct Good {
     pub nontrivial: Option<u64>,
     /// class labels for the histogram in the evidence
     pub classes: Vec<String>,
+    /// executions performed inside this case beyond the first (sweeps over split / cut points)
+    pub extra_evals: u64,
 }
 
 impl Good {
@@ -30,7 +32,7 @@ impl Good {
         Good::default()
     }
     pub fn nontrivial() -> Good {
-        Good { nontrivial: Some(0), classes: vec![] }
+        Good { nontrivial: Some(0), classes: vec![], extra_evals: 0 }
     }
     pub fn class(mut self, c: impl Into<String>) -> Good {
         self.classes.push(c.into());
@@ -167,6 +169,7 @@ where
                         n_local.set(n_local.get() + 1);
                         match v {
                             Verdict::Pass(g) => {
+                                n_local.set(n_local.get() + g.extra_evals);
                                 for c in &g.classes {
                                     *local.classes.entry(c.clone()).or_insert(0) += 1;
                                 }
@@ -304,6 +307,7 @@ where
                             evals.fetch_add(1, Ordering::Relaxed);
                             match test(&mut state, case) {
                                 Verdict::Pass(g) => {
+                                    evals.fetch_add(g.extra_evals, Ordering::Relaxed);
                                     for c in &g.classes {
                                         *local.classes.entry(c.clone()).or_insert(0) += 1;
                                     }
